@@ -66,6 +66,8 @@ type world struct {
 	ownSig func(f sim.Finding) string
 	// statusJudged counts the parent writes judged by M-STATUS
 	statusJudged int
+	// strategyJudged counts the child requests judged by M-STRATEGY
+	strategyJudged int
 	// caseID is the case id used in reports (defaults to cfg.ID)
 	caseID string
 }
@@ -364,6 +366,7 @@ func (w *world) observe(key string, run func() error) *syncResult {
 				map[string]interface{}{"key": key})
 		}
 		w.judgeParentWrites(res)
+		w.judgeStrategy(res)
 		if res.Cached != nil {
 			parentObj := sim.Obj(res.Cached.Object)
 			ctx := sim.OwnCtx{ParentGVR: w.parentGVR(), ParentKey: key, ParentUID: string(res.Cached.GetUID()), Selector: w.selectorFor(parentObj), RevisionGVR: env.RevisionGVR}
@@ -446,6 +449,7 @@ func (w *world) flushCounters(prop string) {
 	}
 	r.Counter(prop, "syncs", atomic.LoadInt64(&w.syncs))
 	r.Counter("C11", "parent_writes_judged_by_mstatus", int64(w.statusJudged))
+	r.Counter("C06", "child_requests_judged_by_mstrategy", int64(w.strategyJudged))
 	if !w.noMonitors {
 		// every scenario is also a C17 case: its syncs ran under the cache-fingerprint oracle
 		r.Case("C17", "mcache-"+w.reportID(), atomic.LoadInt64(&w.cacheObjs) > 0, "mcache/"+w.reportID(), nil)
